@@ -80,7 +80,10 @@ class World:
                 MemBlockingControl.get_blocking_invocations,
                 T.c02_body,
             ]
-            self.sched: SqlSched = LineSched(line_targets=targets, lock_modules=["pynenc.orchestrator.mem_orchestrator"])
+            # every Python line executed under the lock-table lookup is a yield point, also inside the container
+            # implementation (a dict's setdefault is one C call; a Python-level container is not)
+            self.sched: SqlSched = LineSched(line_targets=targets, lock_modules=["pynenc.orchestrator.mem_orchestrator"],
+                                             deep_targets=[MemOrchestrator._get_invocation_lock])
         else:
             self.sched = SqlSched(patch=SQL_PATCH, max_steps=20000)
         self.sched.install()
